@@ -236,7 +236,8 @@ def spec_pair_histories(tier, seed, spec):
 
 
 def atom_pair_histories(tier):
-    """For every atom, every ordered pair of syntactic positions, under every renderer (thorough: every option set)."""
+    """For every atom, every ordered pair of syntactic positions, under every renderer (thorough: every option set). All stride
+    walks of one parity are joined into one history (odd strides: one renderer instance; even strides: separate calls)."""
     out = []
     positions = sorted(D.ATOM_POSITIONS)
     n = len(positions)
@@ -246,23 +247,27 @@ def atom_pair_histories(tier):
                 continue
             for ai in range(len(D.ATOMS)):
                 docs_all = [D.ATOM_PROBES['atom%d_%s' % (ai, p)] for p in positions]
-                for stride in range(1, n + 1):
-                    seen = set()
-                    for start in range(n):
-                        if start in seen:
+                for parity in (1, 0):
+                    seq = []
+                    for stride in range(1, n + 1):
+                        if stride % 2 != parity:
                             continue
-                        seq, j = [], start
-                        while j not in seen:
-                            seen.add(j)
+                        seen = set()
+                        for start in range(n):
+                            if start in seen:
+                                continue
+                            j = start
+                            while j not in seen:
+                                seen.add(j)
+                                seq.append(j)
+                                j = (j + stride) % n
                             seq.append(j)
-                            j = (j + stride) % n
-                        seq.append(j)
-                        docs = [docs_all[x] for x in seq]
-                        if stride % 2:
-                            out.append(('atom_pairs', [{'k': 'CTX', 'R': rid, 'opts': opts, 'exit': 'normal',
-                                                        'steps': [{'k': 'RENDER', 'doc': d} for d in docs]}]))
-                        else:
-                            out.append(('atom_pairs', [{'k': 'MD', 'R': rid, 'opts': opts, 'doc': d} for d in docs]))
+                    docs = [docs_all[x] for x in seq]
+                    if parity:
+                        out.append(('atom_pairs', [{'k': 'CTX', 'R': rid, 'opts': opts, 'exit': 'normal',
+                                                    'steps': [{'k': 'RENDER', 'doc': d} for d in docs]}]))
+                    else:
+                        out.append(('atom_pairs', [{'k': 'MD', 'R': rid, 'opts': opts, 'doc': d} for d in docs]))
     return out
 
 
